@@ -140,6 +140,7 @@ def run_property(prop, repo="/repo", tier="quick", crates=None, meta=None, quiet
     t0 = time.time()
     if crates is None:
         crates, meta = facts.get_facts(repo)
+    meta = dict(meta or {}, repo=repo)
     db = DB(crates, meta)
     mod = importlib.import_module("sverif.rules." + prop)
     ctx = Ctx(db, prop, tier)
